@@ -49,6 +49,7 @@ var elementsOf = map[string][2]int{"/cons/mm": {1, 3}, "/cons/mmin": {2, 0}, "/s
 var ifNameRe = regexp.MustCompile(`^/if\[name=([^\]]*)\]/name$`)
 var peerViaRe = regexp.MustCompile(`^/peer\[name=[^\]]*\]\[zone=[^\]]*\]/via$`)
 var unitChkRe = regexp.MustCompile(`^(/if\[name=[^\]]*\])/unit\[id=[^\]]*\]/chk$`)
+var peerViaUnitRe = regexp.MustCompile(`^(/peer\[name=[^\]]*\]\[zone=[^\]]*\])/via-unit$`)
 var mlistRe = regexp.MustCompile(`^(/cons/mlist\[k=[^\]]*\])/`)
 
 func llElems(v string) []string {
@@ -111,6 +112,15 @@ func Validate(cfg map[string]string, disabled map[string]bool) []Violation {
 		switch {
 		case p == "/cons/lref" || peerViaRe.MatchString(p):
 			if !ifNames[v] {
+				add("leafref", p)
+			}
+		case peerViaUnitRe.MatchString(p):
+			// /if[name=current()/../via]/unit/id : the unit must exist in the interface the peer's via names
+			m := peerViaUnitRe.FindStringSubmatch(p)
+			via, ok := cfg[m[1]+"/via"]
+			if !ok {
+				add("leafref", p)
+			} else if _, ok := cfg["/if[name="+via+"]/unit[id="+v+"]/id"]; !ok {
 				add("leafref", p)
 			}
 		case p == "/cons/lrefs":
